@@ -7,6 +7,7 @@
 package main
 
 import (
+	"context"
 	"encoding/json"
 	"fmt"
 	"os"
@@ -125,7 +126,19 @@ func spawn(id, tier string, i, n int, dir string, only string) shardOut {
 	if only != "" {
 		args = append(args, only)
 	}
-	cmd := exec.Command(os.Args[0], args...)
+	// a worker that is still running long after its own deadline is stuck inside one case (a call into the library that never returns):
+	// it is killed and reported as a crash on the case named in its status file
+	limit := 10 * time.Minute
+	if ck := checks.Get(id); ck != nil {
+		limit = ck.CapQuick
+		if tier == "thorough" {
+			limit = ck.CapThorough
+		}
+		limit += 5 * time.Minute
+	}
+	ctx, cancel := context.WithTimeout(context.Background(), limit)
+	defer cancel()
+	cmd := exec.CommandContext(ctx, os.Args[0], args...)
 	cmd.Env = append(os.Environ(), "GOMAXPROCS=2")
 	var eb strings.Builder
 	cmd.Stderr = &eb
@@ -200,6 +213,9 @@ func run(id, tier string) int {
 		}
 		// worker died: attribute to the case it was running
 		f := "worker-crash"
+		if o.err != nil && strings.Contains(o.err.Error(), "killed") {
+			f = "worker-crash/stuck-in-a-case"
+		}
 		if strings.Contains(o.stderr, "stack overflow") {
 			f = "worker-crash/stack-overflow"
 		} else if strings.Contains(o.stderr, "out of memory") {
